@@ -424,19 +424,23 @@ bool exec_str_b(Ctx &c, const Op &op) {
         // the failure must reach the caller one way or the other (std::bad_alloc, or badbit on the stream) and nothing may leak (teardown ledger).
         StrObj *x = pick_str_wf(c, op.a);
         if (!x) { c.skipped = true; return true; }
-        const bool wide = op.b & 1, exc = op.b & 2; const unsigned fmt = (op.b >> 2) % 4;
-        static const char *const F[4] = {"{}|{>200}|{}", "{<70_*}{>130}", "{}", "[{>12}] [{<300_-}] {x}"};
+        const bool wide = op.b & 1, exc = op.b & 2; const unsigned fmt = (op.b >> 2) % 6;
+        static const char *const F[6] = {"{}|{>200}|{}", "{<70_*}{>130}", "{}", "[{>12}] [{<300_-}] {x}", "{}|{}|{&3}{&2}", "{&3}{}{&2}"};
         note_sig(c, op, std::string("obj=") + cl(x) + (wide ? ",wide" : ",narrow") + (exc ? ",exceptions" : "") + ",fmt=" + std::to_string(fmt));
         c.budget_bytes = x->model.size() * 16 + 4096;
         as_const(x);
         std::ostringstream os; std::wostringstream ws;
         if (exc) { os.exceptions(std::ios_base::badbit); ws.exceptions(std::ios_base::badbit); }
+        // text arguments of strictly increasing length (formats 4 and 5): each text fragment of one call is longer than every earlier one
+        TempStr twice(x->model + x->model), thrice(x->model + x->model + x->model + "!");
         ExcKind ex = run_sut(c, op, [&] {
             const S &s = *x->p();
-            if (wide) { ST::writef(ws, F[fmt], s, op.c, s); ws << s; } else { ST::writef(os, F[fmt], s, op.c, s); os << s; }
+            if (fmt >= 4) { if (wide) ST::writef(ws, F[fmt], s, *twice.p, *thrice.p); else ST::writef(os, F[fmt], s, *twice.p, *thrice.p); }
+            else if (wide) { ST::writef(ws, F[fmt], s, op.c, s); ws << s; } else { ST::writef(os, F[fmt], s, op.c, s); os << s; }
         });
-        if (c.fired && ex == EX_NONE && (wide ? ws.bad() : os.bad())) ex = EX_BAD_ALLOC;      // reported through the stream by the standard library
-        if (c.fired && ex == EX_OTHER && exc) ex = EX_BAD_ALLOC;                               // std::ios_base::failure from the exceptions mask
+        // reported through the stream by the standard library (badbit); with exceptions(badbit) libstdc++ rethrows the *original* exception, so even
+        // then it is std::bad_alloc that reaches the caller - std::ios_base::failure in its place is somebody else's doing
+        if (c.fired && ex == EX_NONE && (wide ? ws.bad() : os.bad())) ex = EX_BAD_ALLOC;
         settle(c, op, ex, 0);
         return true;
     }
